@@ -305,13 +305,13 @@ def generate(rng, caps=None, **kw):
 
 SYNTAX_ONLY = [
     "#[foo] fn a() {}\n#[foo, bar,] pub fn b() {}\n#[trigger on t(1, \"x\")] event fn c(x: int) {}\nfn main() {}",
-    "import { templ T, type U, trigger v, w } from m;\nimport x from y;\nimpl T for $S { }\nimpl T with { a, b, } for $S { pub fn f() {} event fn g(s: $S) -> int { 1 } fn h() {} }",
-    "$S = { @setting \"a b\": int, @x y: { @z w: [?str] } };\n$E = { };\n$A = { ? };\n$L = [int];",
+    "import { templ T, type U, w } from m;\nimport { trigger v } from m;\nimport trigger v2 from m;\nimport x from y;\nimpl T for $S { }\nimpl T with { a, b } for $S { pub fn f() {} event fn g(s: $S) -> int { 1 } fn h() {} }",
+    "$S = { @setting \"a b\": int, @x y: { w: [?str] } };\n$E = { };\n$A = { ? };\n$L = [int];",
     "type A = fn() -> null;\ntype B = fn(a: int, _b: fn(c: ?[str]) -> { ? }) -> [fn() -> int];\npub type C = { \"\\\\\": int, \"\\\"\": str, \"\\n\": bool };",
     "fn main() { let a = $S.x; $S.y = 1; let f = fn() { }; let g = fn(a: $S) -> $S { a }; spawn h(1, 2); x->y~>z.w; a as ?[{ ? }]; }",
-    "fn main() { return; }\nfn a() -> int { return 1 }\nfn b() { loop { break } while true { continue } }",
+    "fn main() { return; }\nfn a() -> int { return 1; }\nfn b() { loop { break; } while true { continue; } }",
     "fn main() { let x = match y { 1 | 2 | 3 => a, \"s\" => { b }, -1 => c, !true => d, ?2 => e, 1.5 => f, none => g, null => h, [1] => i, _ => j }; match x { } match x { _ => 1 } }",
-    "fn main() { a = b; a[0] = 1; a.b = 2; a.b[1].c += 3; (a as int) = 4; a **= b **= 2; }",
+    "fn main() { a = b; a[0] = 1; a.b = 2; a.b[1].c += 3; a as int = 4; a **= 2; }",
     "fn main() { let r = 1..2; let s = a..=b + 1; let t = (1..2)..3; for i in 0..n + 1 { } }",
     "fn main() { if a { } else if b { } else { }; if if c { true } else { false } { 1 } else { 2 } }",
     "fn main() { try { } catch e { }; let v = try { 1 } catch _ { 2 }; { }; { { } }; { 1 } }",
